@@ -74,6 +74,7 @@ Section K.
     destruct (listing base) as [[dirs files]|]; [|split; [exact Hc|apply prefix_refl]].
     rewrite Hc. destruct (dirsC base dirs c) as [kept st1] eqn:Ed.
     pose proof (dirsC_out base dirs c Hc) as [D1 D2]. rewrite Ed in D1, D2. cbn [snd] in D1, D2.
+    rewrite D1.
     destruct (filesC_mono base files st1 D1) as [F1 F2]. rewrite D2 in F2.
     set (s2 := filesC base files st1) in *.
     assert (G : forall l s, w_abort s = false ->
@@ -151,21 +152,11 @@ Section K.
       rewrite Hc. destruct (dirsK base dirs c) as [kK s1] eqn:EK. destruct (dirsC base dirs c) as [kC c1] eqn:EC.
       destruct (dirs_rel base dirs c Hc) as [D1 D2]. rewrite EK in D1, D2. cbn [snd] in D1, D2.
       pose proof (dirsC_out base dirs c Hc) as [C1 C2]. rewrite EC in C1, C2. cbn [snd] in C1, C2.
-      assert (Hrel : R (filesK base files s1) (filesC base files c1)).
-      { apply files_rel; [exact C1|congruence|]. intros Ha. specialize (D2 Ha). rewrite EC in D2. congruence. }
+      rewrite C1.
       destruct (w_abort s1) eqn:Ea1.
-      + (* killed during folder validation: the kept list is irrelevant from now on *)
-        assert (Hab : w_abort (filesK base files s1) = true).
-        { destruct Hrel as [_ [[X Y]|[X _]]]; [|exact X].
-          (* files_loop never clears the flag *)
-          exfalso. clear - Ea1 X. revert s1 Ea1 X. induction files as [|n fs IHf]; intros s1 Ea1 X; cbn [files_loop] in X; [congruence|].
-          destruct (vfile base n) as [r k1]. assert (E : w_abort (set_abort s1 k1) = true) by (unfold set_abort; cbn; rewrite Ea1; reflexivity).
-          destruct r; match type of X with context [if w_abort ?t then _ else _] =>
-            assert (E2 : w_abort t = true) by (unfold set_abort; cbn; unfold set_abort in E; cbn in E; rewrite E; reflexivity); rewrite E2 in X; congruence end. }
-        rewrite foldK_aborted by exact Hab.
-        destruct Hrel as [Hc1 HR1].
-        assert (Hpre : prefix (w_out (filesK base files s1)) (w_out (filesC base files c1))).
-        { destruct HR1 as [[X Y]|[_ Y]]; [rewrite Y; apply prefix_refl|exact Y]. }
+      + (* killed during folder validation: the files of this directory are not started, the kept list is irrelevant *)
+        rewrite foldK_aborted by exact Ea1.
+        destruct (filesC_mono base files c1 C1) as [F1 F2].
         assert (G : forall l cs, w_abort cs = false ->
                   w_abort (fold_left (fun s d => if w_abort s then s else
                                if followlinks || negb (islink (pjoin base d)) then walkC f (pjoin base d) s else s) l cs) = false /\
@@ -175,9 +166,12 @@ Section K.
           rewrite Hcs. destruct (followlinks || negb (islink (pjoin base d))).
           - destruct (walkC_mono f (pjoin base d) cs Hcs) as [A B]. destruct (IHl _ A) as [A' B']. split; [exact A'|eapply prefix_trans; eassumption].
           - apply IHl. exact Hcs. }
-        destruct (G kC _ Hc1) as [A B]. split; [exact A|]. right. split; [exact Hab|eapply prefix_trans; eassumption].
+        destruct (G kC _ F1) as [A B]. split; [exact A|]. right. split; [exact Ea1|].
+        rewrite D1, <- C2. eapply prefix_trans; eassumption.
       + (* no kill during folder validation: same kept list *)
         specialize (D2 eq_refl). rewrite EC in D2. injection D2 as -> ->.
+        assert (Hrel : R (filesK base files c1) (filesC base files c1)).
+        { apply files_rel; [exact C1|reflexivity|reflexivity]. }
         assert (G : forall l s' c', R s' c' ->
                   R (fold_left (fun s d => if w_abort s then s else
                                if followlinks || negb (islink (pjoin base d)) then walkK f (pjoin base d) s else s) l s')
@@ -207,6 +201,44 @@ Section K.
     set (st0 := {| w_abort := false; w_skipped := 0; w_visited := 0; w_out := [] |}).
     assert (R0 : R st0 st0) by (split; [reflexivity|left; split; reflexivity]).
     destruct (walk_rel fuel root st0 st0 R0) as [_ [[_ ->]|[_ H]]]; [apply prefix_refl|exact H].
+  Qed.
+
+  (* a kill() issued while the folders of a directory are being filtered: none of its files is started and no
+     directory below it is visited - the run yields nothing further *)
+  Theorem kill_in_folder_phase_stops f base dirs files st :
+    listing base = Some (dirs, files) -> w_abort st = false ->
+    w_abort (snd (dirsK base dirs st)) = true ->
+    w_out (walkK (S f) base st) = w_out st /\ w_abort (walkK (S f) base st) = true.
+  Proof.
+    intros HL Hs Hk. cbn [walk]. rewrite HL, Hs.
+    destruct (dirs_rel base dirs st Hs) as [D1 _].
+    destruct (dirsK base dirs st) as [kK s1]. cbn [snd] in *. rewrite Hk.
+    rewrite foldK_aborted by exact Hk. split; assumption.
+  Qed.
+
+  (* the state after one file has been handled (validation, on_match or on_skip/on_error, any kill() they issue) *)
+  Definition file_step (base n : str) (st : wst) : wst :=
+    let '(r, k1) := vfile base n in
+    let st1 := set_abort st k1 in
+    match r with
+    | FValid => set_abort {| w_abort := w_abort st1; w_skipped := w_skipped st1; w_visited := S (w_visited st1);
+                             w_out := w_out st1 ++ [(base, n)] |} (match_kill base n)
+    | _ => set_abort {| w_abort := w_abort st1; w_skipped := S (w_skipped st1); w_visited := S (w_visited st1);
+                        w_out := w_out st1 |} (skip_kill base n)
+    end.
+
+  (* a kill() issued while file n is being handled: the files after n are not touched *)
+  Theorem kill_in_file_phase_stops base n fs st :
+    w_abort (file_step base n st) = true -> filesK base (n :: fs) st = file_step base n st.
+  Proof.
+    unfold file_step. cbn [files_loop]. destruct (vfile base n) as [r k1]. intros H. rewrite H. reflexivity.
+  Qed.
+
+  (* ... and otherwise the loop goes on with the next file *)
+  Theorem file_phase_continues base n fs st :
+    w_abort (file_step base n st) = false -> filesK base (n :: fs) st = filesK base fs (file_step base n st).
+  Proof.
+    unfold file_step. cbn [files_loop]. destruct (vfile base n) as [r k1]. intros H. rewrite H. reflexivity.
   Qed.
 
   (* the object stays aborted: a run started with the flag set yields nothing *)
